@@ -1,0 +1,30 @@
+//go:build verif
+
+package value
+
+import "github.com/hneemann/parser2/funcGen"
+
+// Verification hooks (build tag verif): read-only accessors. Add-only; not compiled without the tag.
+
+// VerifMethods returns, per registered type name, arity (receiver included, -1 variadic) and purity
+// of every method.
+func (fg *FunctionGenerator) VerifMethods() map[string]map[string]funcGen.VerifFunction {
+	res := map[string]map[string]funcGen.VerifFunction{}
+	for id := Type(1); id <= fg.typeId; id++ {
+		mm := fg.methods[id]
+		if mm == nil {
+			continue
+		}
+		m := map[string]funcGen.VerifFunction{}
+		for name, f := range mm {
+			m[name] = funcGen.VerifFunction{Args: f.Args, IsPure: f.IsPure}
+		}
+		res[fg.typeDescriptions[id].Name] = m
+	}
+	return res
+}
+
+// VerifState reports length, capacity and materialisation state of a list (coverage measurements only).
+func (l *List) VerifState() (length, capacity int, itemsPresent bool) {
+	return len(l.items), cap(l.items), l.itemsPresent
+}
